@@ -34,34 +34,61 @@ def parseSteps : List String → Option (List Step)
     pure (⟨kind, f == "1", const, out, val⟩ :: tl)
   | _ => none
 
-/-- does the compiled tree contain a call of `name` / a closure? -/
-def hasCall (dump : String) (name : String) : Bool := (dump.splitOn ("(call " ++ name ++ " ")).length > 1
-def hasClosure (dump : String) : Bool := (dump.splitOn "(closure ").length > 1
-def hasAnyCall (dump : String) : Bool :=
-  -- `del` / `exists` on queries are modelled (they are not calls of the model's tree)
-  ((dump.splitOn "(call ").filter fun part =>
-    !(part.startsWith "del 0 " || part.startsWith "exists 0 ")).length > 1
+/-! the root expressions of the dump, as token lists (`(prog e1 e2 … )`: an opening token starts with
+    `(`, the closing token is `)`; values and paths contain neither) -/
 
-/-- NAME of the finding class of an oracle failure (the failure itself is decided by the Spec
-    predicate). Decided from the compiled tree:
-    * programs inside the model of the type inference (no function call): the side condition of the
-      soundness theorem (`Lang.checks`) that fails among the root expressions that ran, the most
-      specific one (`Chk.priority`) when several fail — `-` when none fails, i.e. when the theorem
-      applies and the failure contradicts it (a VIOLATION);
-    * programs with function calls (outside the model): `map_keys` → `D_map_keys_type_def`, closure →
-      `D_closure_effects_ignored`, otherwise the failed typing side condition met while typing the tree
-      with calls taken as opaque, `D_call_typing` if none. -/
-def features (dump : String) (T0 : Lang.TState) (upTo : Nat) : String :=
+def splitRootsAux : List String → Nat → List String → List (List String) → List (List String)
+  | [], _, cur, acc => (if cur.isEmpty then acc else cur.reverse :: acc).reverse
+  | t :: ts, depth, cur, acc =>
+    if t.startsWith "(" then splitRootsAux ts (depth + 1) (t :: cur) acc
+    else if t == ")" then
+      if depth == 0 then (if cur.isEmpty then acc else cur.reverse :: acc).reverse   -- end of `(prog`
+      else if depth == 1 then splitRootsAux ts 0 [] ((t :: cur).reverse :: acc)
+      else splitRootsAux ts (depth - 1) (t :: cur) acc
+    else splitRootsAux ts depth (t :: cur) acc
+
+def splitRoots (dump : String) : List (List String) :=
+  match tokens dump with
+  | "(prog" :: rest => splitRootsAux rest 0 [] []
+  | _ => []
+
+/-- `(call <name> <bang> …` occurrences in a root: (name, bang) -/
+def callsOf : List String → List (String × Bool)
+  | "(call" :: n :: b :: rest => (n, b == "1") :: callsOf (n :: b :: rest)
+  | _ :: rest => callsOf rest
+  | [] => []
+
+def rootHasCall (toks : List String) (name : String) : Bool := (callsOf toks).any (·.1 == name)
+def rootHasBang (toks : List String) : Bool := (callsOf toks).any (·.2)
+def rootHasClosure (toks : List String) : Bool := toks.contains "(closure"
+/-- a function call the model of the type inference does not cover (`del` / `exists` on queries are
+    expression forms of the model) -/
+def rootHasAnyCall (toks : List String) : Bool :=
+  (callsOf toks).any fun (n, b) => !((n == "del" || n == "exists") && !b)
+
+/-- NAME of the finding class of an oracle failure observed at root `i` (the failure itself is decided
+    by the Spec predicate), decided from the compiled tree of the roots `0..i` that ran:
+    * no function call among them (inside the model of the type inference): the side condition of the
+      soundness theorem (`Lang.checks`) that fails, the most specific one (`Chk.priority`) when several
+      fail — `-` when none fails, i.e. when the theorem applies and the failure contradicts it
+      (a VIOLATION);
+    * with function calls (outside the model): for a value, `map_keys` in root `i` →
+      `D_map_keys_type_def`; a closure in any of the roots → `D_closure_effects_ignored`; otherwise the
+      failed typing side condition met while typing the tree with calls taken as opaque,
+      `D_call_typing` if none. -/
+def features (dump : String) (T0 : Lang.TState) (i : Nat) (isValue : Bool) : String :=
   match Lang.Parse.program dump with
   | none => "-"
   | some prog =>
-    let failed := ((Lang.rootChecks prog T0).take upTo).flatten
-    if !hasAnyCall dump then
+    let roots := (splitRoots dump).take (i + 1)
+    let failed := ((Lang.rootChecks prog T0).take (i + 1)).flatten
+    if !roots.any rootHasAnyCall then
       match Lang.pickClass failed with
       | some c => c.name
       | none => "-"
-    else if hasCall dump "map_keys" then "D_map_keys_type_def"
-    else if hasClosure dump then "D_closure_effects_ignored"
+    else if isValue && (match roots.getLast? with | some r => rootHasCall r "map_keys" | none => false) then
+      "D_map_keys_type_def"
+    else if roots.any rootHasClosure then "D_closure_effects_ignored"
     else
       match Lang.pickClass (failed.filter fun c => c != Lang.Chk.outOfModel && c != Lang.Chk.structural) with
       | some c => c.name
@@ -87,10 +114,15 @@ def judge (op : String) (T0 : Lang.TState) (rest : List String) : Option String 
     let (out, val) := parseOut outcome
     -- the class is the first failed side condition among the root expressions that ran
     -- (computed only for failures: the functions below are not called on the `holds` path)
-    let feat (_ : Unit) := features dump T0 steps.length
-    let featAt (i : Nat) := features dump T0 (i + 1)
+    let feat (_ : Unit) := features dump T0 (steps.length - 1) true
+    let featAt (i : Nat) := features dump T0 i true
     -- the final type state assumes the whole program ran: after a `return` nothing is known
-    let featEnd (_ : Unit) := if out == "ret" then "D_return_skips_effects" else feat ()
+    let featEnd (_ : Unit) :=
+      if out == "ret" then "D_return_skips_effects" else features dump T0 (steps.length - 1) false
+    -- `f!(…)` is typed infallible by design (the error terminates the program): roots with a `!` are
+    -- not judged by the `infallible_expr` clause
+    let roots := splitRoots dump
+    let bangAt (i : Nat) : Bool := match roots[i]? with | some r => rootHasBang r | none => false
     let fl := flags.toList
     let progFallible := fl[0]? == some '1'
     let progAbortable := fl[1]? == some '1'
@@ -110,7 +142,7 @@ def judge (op : String) (T0 : Lang.TState) (rest : List String) : Option String 
     else if op == "o.c02" then
       -- an expression typed infallible never raises an error (NaN excepted); a program without `!`
       -- and `abort` never fails; non-fallible / non-abortable programs never error / abort
-      match steps.findIdx? (fun st => !st.fallible && st.out == "err") with
+      match (steps.zipIdx.find? (fun (st, i) => !st.fallible && st.out == "err" && !bangAt i)).map (·.2) with
       | some i => pure ("fails infallible_expr:" ++ featAt i)
       | none =>
         if !hasBang && !hasAbort && (out == "err" || out == "abort") then pure ("fails program:" ++ feat ())
